@@ -129,7 +129,11 @@ def after_other_writer(x, p):
     first = x.choice('first', ['PureLuaWriter', 'LuaMinifyTokenWriter',
                                'LuaFormatterWriter', 'LuaASTEchoWriter',
                                'LuaEchoWriter', 'get_token_count',
-                               'get_title', 'reparse'])
+                               'get_title', 'reparse',
+                               'abandoned LuaEchoWriter',
+                               'abandoned LuaMinifyTokenWriter'])
+    final = x.choice('final', [None, 'LuaMinifyTokenWriter',
+                               'LuaFormatterWriter'])
     tail = x.bytes('tail', 1, 32, 126)       # one symbolic comment byte
     text = src + b'v=1 --' + tail + b'\n'
     prog = lua.Lua.from_lines([text], version=8)
@@ -144,6 +148,11 @@ def after_other_writer(x, p):
             prog.get_byline()
         elif first == 'reparse':
             prog.reparse(writer_cls=lua.LuaEchoWriter)
+        elif first.startswith('abandoned '):
+            # somebody peeks at the first line and drops the iterator
+            it = prog.to_lines(writer_cls=getattr(lua, first.split()[1]))
+            next(it)
+            del it
         else:
             list(prog.to_lines(writer_cls=getattr(lua, first)))
     except Exception as e:
@@ -154,6 +163,12 @@ def after_other_writer(x, p):
     x.out('echo', echo1)
     x.check('the default writer echoes the same code after another writer '
             'has run on the same Lua object', echo1 == echo0, info=first)
+    if final is not None and first != 'reparse':
+        fresh = lua.Lua.from_lines([text], version=8)
+        want = b''.join(fresh.to_lines(writer_cls=getattr(lua, final)))
+        got = b''.join(prog.to_lines(writer_cls=getattr(lua, final)))
+        x.check('a transforming writer gives what it gives on a freshly '
+                'loaded program', got == want, info=first + ' / ' + final)
 
 
 Q = {'_budget': 300}
